@@ -45,7 +45,7 @@ func (l *lexer) nextToken() token {
 }
 
 func (l *lexer) next() rune {
-	ch, size, err := l.reader.ReadRune()
+	ch, _, err := l.reader.ReadRune()
 	if err != nil {
 		l.width = 0
 		return scanner.EOF
@@ -55,8 +55,11 @@ func (l *lexer) next() rune {
 	if ch == '\n' {
 		l.pos = append(l.pos, 0)
 	}
-	l.width = size
-	l.s += string(ch)
+	// width is what backup and skip take off the pending string again; for an invalid
+	// byte (read as utf8.RuneError) that is more than the one byte consumed
+	str := string(ch)
+	l.width = len(str)
+	l.s += str
 	return ch
 }
 
